@@ -9,6 +9,7 @@ import NomtModel.Driver.BitOpsMode
 import NomtModel.Driver.SeglogMode
 import NomtModel.Driver.TriePosMode
 import NomtModel.Driver.ShardsMode
+import NomtModel.Driver.FinishMode
 import NomtModel.Driver.DeltaMode
 import NomtModel.Driver.OvfMode
 import NomtModel.Driver.LeafUpdMode
@@ -22,6 +23,8 @@ import NomtModel.Driver.HasherMode
 import NomtModel.Driver.CachesMode
 import NomtModel.Driver.ExtRangeMode
 import NomtModel.Driver.OpenPathMode
+import NomtModel.Driver.BtTreeMode
+import NomtModel.Driver.IoPoolMode
 /-!
 `nomt_model`: the executable Lean model behind a line protocol.
 First argument selects the sub-protocol; stdin → stdout, one output line per input line.
@@ -50,6 +53,7 @@ def main (args : List String) : IO UInt32 := do
   | ["seglog"] => loop stdin stdout SegD.seglogStep {}; return 0
   | ["triepos"] => loop stdin stdout trieposStep none; return 0
   | ["shards"] => loop stdin stdout shardsStep {}; return 0
+  | ["finishops"] => loop stdin stdout finishStep {}; return 0
   | ["delta"] => loop stdin stdout deltaStep {}; return 0
   | ["overflow"] => loop stdin stdout OvfD.ovfStep {}; return 0
   | ["leafupd"] => loop stdin stdout leafupdStep none; return 0
@@ -63,4 +67,6 @@ def main (args : List String) : IO UInt32 := do
   | ["caches"] => loop stdin stdout cachesStep {}; return 0
   | ["extrange"] => loop stdin stdout extrangeStep {}; return 0
   | ["openpath"] => loop stdin stdout openpathStep (); return 0
+  | ["bttree"] => loop stdin stdout BtD.btStep {}; return 0
+  | ["iopool"] => loop stdin stdout iopoolStep {}; return 0
   | _ => IO.eprintln "usage: nomt_model <core|...>"; return 2
